@@ -6,14 +6,38 @@ from bardolph.controller.script_job import ScriptJob
 
 class Run:
     __slots__ = ('accepted', 'errors', 'log', 'stops', 'thread_exc', 'range',
-                 'job', 'compile_exc')
+                 'job', 'compile_exc', 'budget_exhausted')
 
     def dev_events(self, ok_only=False):
         return [e for e in self.log if e[0] in ('dev', 'lan')
                 and (not ok_only or e[-1] == 'ok')]
 
 
-def run_script(text, decisions=None, keep_job=False, job=None):
+def install_budget(job, r, budget):
+    """Bounded run: every loop and every call passes through JUMP or JSR;
+    after `budget` jumps (budget/20 calls) the machine is asked to stop (as a
+    user could) and the run is flagged.  Infinite scripts are legal, endless
+    test cases are not."""
+    from bardolph.vm.vm_codes import OpCode
+    machine = job._machine
+    table = machine._fn_table
+    state = {OpCode.JUMP: 0, OpCode.JSR: 0}
+    limit = {OpCode.JUMP: budget, OpCode.JSR: max(budget // 20, 100)}
+    for op in (OpCode.JUMP, OpCode.JSR):
+        orig = getattr(machine, '_' + op.name.lower())
+
+        def counted(orig=orig, op=op):
+            state[op] += 1
+            if state[op] > limit[op]:
+                r.budget_exhausted = True
+                machine.stop()
+                machine._reg.pc = len(machine._program) + 1
+                return
+            orig()
+        table[op] = counted
+
+
+def run_script(text, decisions=None, keep_job=False, job=None, budget=100000):
     """Compile `text` in a fresh ScriptJob (or re-run `job`) and execute it."""
     env.reset_monitors()
     if decisions is not None:
@@ -27,12 +51,15 @@ def run_script(text, decisions=None, keep_job=False, job=None):
         except Exception as ex:
             r.compile_exc = ex
             r.accepted, r.errors = None, ''
+            r.budget_exhausted = False
             r.log, r.stops, r.thread_exc, r.range = [], [], [], []
             return r
     r.accepted = job.program is not None
     r.errors = job.compile_errors
+    r.budget_exhausted = False
     if r.accepted:
         simnet.reset_log()
+        install_budget(job, r, budget)
         job.execute()
     r.log = list(simnet.LOG)
     r.stops = list(env.MACHINE_STOPS)
